@@ -26,9 +26,10 @@ from .. import c19_catalogue as CAT
 
 PID = "C19"
 GEN = os.path.join(SPEC, "gen")
-FAMILIES = ("options", "variables", "environments", "status", "output")
+FAMILIES = ("options", "variables", "environments", "status", "output", "names")
 INVARIANTS = ("TypeOK", "RoundTrip", "FixedPoint", "NoKeywordClash", "StageFilesSelfContained")
-FAULTS = {"parse-drops-max-restarts": "options", "two-options-one-keyword": "options", "no-migration": "variables"}
+FAULTS = {"parse-drops-max-restarts": "options", "two-options-one-keyword": "options", "no-migration": "variables",
+          "env-name-cut-at-hyphen": "names"}
 ABSENT = "<absent>"
 
 
@@ -49,6 +50,12 @@ def check_drift(chk, FL, D):
     gone = sorted(p for p in CAT.UNSUPPORTED if p not in code_paths)
     if gone:
         raise MachineryError("spec drift: options listed as unsupported no longer exist in FlowIR: %s" % gone)
+    for pool in (CAT.ENV_NAME_POOL, CAT.COMP_NAME_POOL, CAT.OUT_NAME_POOL):
+        clash = [n for n in pool if n.lower() in CAT.RESERVED_SECTION_NAMES]
+        if clash:
+            raise MachineryError("catalogue: the name alphabet uses names the legacy format reserves: %s" % clash)
+    if set(CAT.VAR_NAME_POOL) & keys:
+        raise MachineryError("catalogue: the name alphabet names variables like legacy keywords: %s" % sorted(set(CAT.VAR_NAME_POOL) & keys))
     code_keys = set(D.Dosini.known_flowir_options())
     extra = sorted(code_keys - keys)
     if extra:
@@ -93,6 +100,8 @@ def run_models(chk, tier):
         jobs.append(("fault", fault, write_cfg("Dosini_fault_%s.cfg" % fault, fam, "quick", False, fault=fault, invariants=("RoundTrip",))))
     jobs.append(("witness", "WitnessPairFolded", write_cfg("Dosini_witness_pair.cfg", "options", "quick", False, invariants=("WitnessPairFolded",))))
     jobs.append(("witness", "WitnessMigration", write_cfg("Dosini_witness_migration.cfg", "variables", "quick", False, invariants=("WitnessMigration",))))
+    jobs.append(("witness", "WitnessPrefixNames", write_cfg("Dosini_witness_prefix.cfg", "names", "quick", False, invariants=("WitnessPrefixNames",))))
+    jobs.append(("witness", "WitnessManyStages", write_cfg("Dosini_witness_stages.cfg", "names", "quick", False, invariants=("WitnessManyStages",))))
     jobs.append(("coverage", "variables", write_cfg("Dosini_cov.cfg", "variables", "quick", False)))
 
     def one(job):
@@ -141,7 +150,7 @@ def run_models(chk, tier):
 
 VAR_TEXT = {"punct": "%s|%s = a:b \"q r\" $X", "plain": "%s-%s", "empty": "", "ref": "<%%(V)s> of %s %s", "percent": "%s %s 100%% at +%%H"}
 ENV_TEXT = {"dollar": "/opt/%s/bin:$PATH", "plain": "/opt/%s/bin:/usr/bin", "empty": "", "percent": "%%n@%s 100%%"}
-DESC_TEXT = {"plain": "energies", "punct": 'a: b = c "q r" ; # x', "percent": "yield in % (+%Y)"}
+DESC_TEXT = {"plain": "energies of %s", "punct": 'a: b = c "q r" ; # x', "percent": "yield in % (+%Y)"}
 
 
 def var_value(scope, name, cls):
@@ -171,13 +180,22 @@ def render_case(case, atoms):
     """-> (FlowIR document, expectations)"""
     doc = base_document(case["backend"])
     c = doc["components"][1]
-    exp = {"opts": {"prod": {}, "c": {}}, "vars": {"prod": {}, "c": {}}}
+    by_name = {"prod": doc["components"][0], "c": c}
+    for comp in sorted(case["expected"]["comps"], key=lambda x: (x["stage"], x["name"])):
+        if comp["name"] not in by_name:
+            # further components of the names family / one filler per additional stage: the name is part of the command
+            extra = {"name": comp["name"], "stage": comp["stage"], "command": {"executable": "echo", "arguments": "run <%s>" % comp["name"]}}
+            doc["components"].append(extra)
+            by_name[comp["name"]] = extra
+    exp = {"opts": {n: {} for n in by_name}, "vars": {n: {} for n in by_name},
+           "stage": {x["name"]: x["stage"] for x in case["expected"]["comps"]}}
     if case["backend"] == "simulator":
         exp["vars"]["c"].update(c["variables"])
     gvars = doc["variables"]["default"]["global"]
     target = {"component": c, "global": doc["blueprint"]["default"]["global"],
               "stage": doc["blueprint"]["default"]["stages"].setdefault(1, {})}[case["layer"]]
     resolved = {}
+    extra_envs = []
     for idx in case["opts"]:
         a = atoms[idx]
         value, gv, want = CAT.render_atom(a)
@@ -192,17 +210,17 @@ def render_case(case, atoms):
                     del comp["command"][leaf]
         if a["type"] == "envname":
             doc["environments"]["default"]["MyEnv"] = {"PATH": "/opt/my/bin:$PATH", "K": "v w"}
+            extra_envs = ["myenv"]
     if not doc["blueprint"]["default"]["stages"].get(1):
         doc["blueprint"]["default"]["stages"].pop(1, None)
-    for comp in ("prod", "c"):
-        for e in case["expected"]["explicit"][comp]:
-            if e["src"] == "atom":
-                exp["opts"][comp][e["path"]] = resolved[e["n"]]
-            elif e["src"] == "backend":
-                exp["opts"][comp][e["path"]] = e["a"]
-            else:
-                raise MachineryError("unexpected expected-value source %r" % (e,))
-    exp["isRepeat"] = case["expected"]["isRepeat"]
+    for e in case["expected"]["explicit"]:
+        if e["src"] == "atom":
+            exp["opts"][e["comp"]][e["path"]] = resolved[e["n"]]
+        elif e["src"] == "backend":
+            exp["opts"][e["comp"]][e["path"]] = e["a"]
+        else:
+            raise MachineryError("unexpected expected-value source %r" % (e,))
+    exp["isRepeat"] = {n: n in case["expected"]["isRepeat"] for n in by_name}
     # variables
     for v in case["vars"]:
         scope, name, cls = v["scope"], v["name"], v["cls"]
@@ -212,23 +230,22 @@ def render_case(case, atoms):
         elif scope.startswith("stage"):
             doc["variables"]["default"]["stages"].setdefault(int(scope[5:]), {})[name] = val
         else:
-            comp = doc["components"][0 if scope == "comp:prod" else 1]
-            comp.setdefault("variables", {})[name] = val
+            by_name[scope[len("comp:"):]].setdefault("variables", {})[name] = val
     cls_of = {(v["scope"], v["name"]): v["cls"] for v in case["vars"]}
-    for comp in ("prod", "c"):
-        for e in case["expected"]["vars"][comp]:
-            if e["src"] == "var":
-                exp["vars"][comp][e["name"]] = resolved_var_value(e["scope"], e["name"], cls_of[(e["scope"], e["name"])])
-            elif e["src"] == "refvar":
-                a = atoms[e["n"]]
-                _, gv, _ = CAT.render_atom(a)
-                exp["vars"][comp].update(gv)
+    for e in case["expected"]["vars"]:
+        if e["src"] == "var":
+            exp["vars"][e["comp"]][e["name"]] = resolved_var_value(e["scope"], e["name"], cls_of[(e["scope"], e["name"])])
+        elif e["src"] == "refvar":
+            a = atoms[e["n"]]
+            _, gv, _ = CAT.render_atom(a)
+            exp["vars"][e["comp"]].update(gv)
     # environments
     for e in case["envs"]:
         env = {}
         for n in e["vars"]:
-            env[n] = ENV_TEXT[e["cls"]].replace("%s", e["name"]) if n == "PATH" else 'a=b c:d "q"'
+            env[n] = ENV_TEXT[e["cls"]].replace("%s", e["name"]) if n == "PATH" else 'a=b c:d "q" of %s in %s' % (n, e["name"])
         doc["environments"]["default"][e["name"]] = env
+    exp["envs"] = sorted(set(case["expected"]["envs"]) | set(extra_envs))
     if case["apps"]:
         doc["application-dependencies"] = {"default": ["CAF.application", "Tools-v2.application"][:case["apps"]]}
     if case["venvs"]:
@@ -254,11 +271,11 @@ def render_case(case, atoms):
         for o in case["output"]:
             e = {"data-in": "prod/out.csv:ref" if o["datain"] == "rel" else "stage1.c/out.csv:copy"}
             if o["desc"] != "absent":
-                e["description"] = DESC_TEXT[o["desc"]]
+                e["description"] = DESC_TEXT[o["desc"]].replace("%s", o["name"]) if o["desc"] == "plain" else DESC_TEXT[o["desc"]]
             if o["type"] != "absent":
                 e["type"] = o["type"]
             if o["stages"] != "absent":
-                e["stages"] = {"idx0": [0], "idx01": [0, 1], "name0": ["stage0"]}[o["stages"]]
+                e["stages"] = {"idx0": [0], "idx01": [0, 1], "name0": ["stage0"], "idxLast": [case["nstages"] - 1]}[o["stages"]]
             out[o["name"]] = e
         doc["output"] = out
     return doc, exp
@@ -378,10 +395,15 @@ def diff_views(written, loaded):
 def check_against_spec(view, exp):
     """The spec's expected explicit options / variables hold in a view -> list of mismatches"""
     bad = []
-    for comp in ("prod", "c"):
-        flat = view["components"].get("stage%d.%s" % (0 if comp == "prod" else 1, comp))
+    want_comps = {"stage%d.%s" % (k, n) for n, k in exp["stage"].items()}
+    for extra in sorted(set(view["components"]) - want_comps):
+        bad.append(("component", extra, ABSENT, "present"))
+    if sorted(view["environments"]) != exp["envs"]:
+        bad.append(("environments", "names", exp["envs"], sorted(view["environments"])))
+    for comp in sorted(exp["stage"]):
+        flat = view["components"].get("stage%d.%s" % (exp["stage"][comp], comp))
         if flat is None:
-            bad.append((comp, "component", "present", ABSENT))
+            bad.append(("component", "stage%d.%s" % (exp["stage"][comp], comp), "present", ABSENT))
             continue
         for path, want in exp["opts"][comp].items():
             if path.startswith("executors.main."):
@@ -459,6 +481,13 @@ def case_label(case, atoms):
                                                                 for e in sorted(case["envs"], key=lambda e: e["name"])), case["apps"], case["venvs"])
     if fam == "status":
         return "status[%s]" % ", ".join("%s@%s" % (s["form"], s["w"]) for s in case["status"])
+    if fam == "names":
+        what = {"env": sorted(e["name"] for e in case["envs"]), "envvar": sorted(n for e in case["envs"] for n in e["vars"]),
+                "comp": sorted(case["comps"]), "var": sorted("%s@%s" % (v["name"], v["scope"]) for v in case["vars"]),
+                "out": sorted(o["name"] for o in case["output"]),
+                "stages": ["%d stages" % case["nstages"]] + (["status"] if case["status"] else []) + (["variables"] if case["vars"] else []) +
+                          (["output"] if case["output"] else [])}[case["kind"]]
+        return "names[%s: %s]" % (case["kind"], ", ".join(what))
     return "output[%s]" % ", ".join("%s:%s/desc=%s/type=%s/stages=%s" % (o["name"], o["datain"], o["desc"], o["type"], o["stages"])
                                      for o in sorted(case["output"], key=lambda o: o["name"]))
 
@@ -579,6 +608,74 @@ def option_keys(results, atoms):
     return keys, base
 
 
+def name_traits(name):
+    """character classes / relations of a name of the alphabet (what the section or keyword syntax could mangle)"""
+    t = []
+    if "-" in name:
+        t.append("hyphen")
+    if "." in name:
+        t.append("dot")
+    if "_" in name:
+        t.append("underscore")
+    if ":" in name or "=" in name:
+        t.append("delimiter")
+    if name[:1].isdigit():
+        t.append("leading-digit")
+    if name != name.lower():
+        t.append("upper-case")
+    if name.lower().startswith("env") or name.lower().startswith("stage") or name.lower().startswith("meta") or name.lower().startswith("default") \
+            or name.lower().startswith("sandbox"):
+        t.append("starts-like-a-section")
+    return t or ["plain"]
+
+
+def names_of(case):
+    return {"env": [e["name"] for e in case["envs"]], "envvar": [n for e in case["envs"] for n in e["vars"]], "comp": list(case["comps"]),
+            "var": [v["name"] for v in case["vars"]], "out": [o["name"] for o in case["output"]], "stages": []}[case["kind"]]
+
+
+def names_keys(results):
+    """results: (case, res) of the names family -> {id(case): [keys]}.
+    roundtrip:names:<kind>:<character classes of the name that does not survive>; a pair of names is attributed to the name(s)
+    that fail alone, otherwise to the relation between the two names (prefix / case / two names)."""
+    alone = {}                     # (kind, name) -> traits, for names that fail on their own
+    for case, res in results:
+        ns = names_of(case)
+        if failed(res) and len(ns) == 1:
+            alone[(case["kind"], ns[0])] = frozenset(name_traits(ns[0]))
+
+    def single_key(kind, name):
+        mine = alone[(kind, name)]
+        # the smallest set of character classes that already fails on its own explains this name as well
+        smaller = sorted((t for (k, n), t in alone.items() if k == kind and t <= mine), key=lambda t: (len(t), sorted(t)))
+        return "roundtrip:names:%s:%s" % (kind, "+".join(sorted(smaller[0])))
+
+    keys = {}
+    for case, res in results:
+        if not failed(res):
+            continue
+        kind, suffix = case["kind"], round_suffix(res)
+        if kind == "stages":
+            parts = sorted({c if c in ("status", "output", "component") else "components" for c, p, a, b in (res["diffs"] or res["diffs2"] or res["spec_bad"])})
+            keys[id(case)] = ["roundtrip:names:stage-index>=10:%s%s" % ("+".join(parts) or "write-read", suffix)]
+            continue
+        ns = names_of(case)
+        culprits = [n for n in ns if (kind, n) in alone]
+        if culprits:
+            keys[id(case)] = sorted({single_key(kind, n) + suffix for n in culprits})
+            continue
+        a, b = sorted(ns, key=len) if len(ns) == 2 else (ns[0], ns[0])
+        if a.lower() == b.lower():
+            rel = "names-differ-by-case"
+        elif b.lower().startswith(a.lower()):
+            rel = "one-name-prefix-of-the-other"
+        else:
+            rel = "two-names"
+        traits = sorted({t for n in ns for t in name_traits(n)})
+        keys[id(case)] = ["roundtrip:names:%s:%s:%s%s" % (kind, rel, "+".join(traits), suffix)]
+    return keys
+
+
 def other_key(case, res, neutral_sig):
     fam = case["fam"]
     suffix = round_suffix(res)
@@ -632,13 +729,14 @@ def other_key(case, res, neutral_sig):
 
 def case_key(case):
     return (case["fam"], case["backend"], case["layer"], case["inject"], tuple(case["opts"]),
-            json.dumps([case["vars"], case["envs"], case["apps"], case["venvs"], case["status"], case["output"]], sort_keys=True))
+            json.dumps([case["vars"], case["envs"], case["apps"], case["venvs"], case["status"], case["output"], case["comps"], case["nstages"]],
+                       sort_keys=True))
 
 
 def order_key(case):
     """simplest cases first: the first failing case of a key becomes its replay file"""
     return (FAMILIES.index(case["fam"]), len(case["opts"]), case["backend"] != "local", case["layer"] != "component", case["inject"],
-            len(case["vars"]) + len(case["envs"]) + len(case["output"]), case_key(case))
+            len(case["vars"]) + len(case["envs"]) + len(case["output"]) + len(case["comps"]) + case["nstages"], case_key(case))
 
 
 def normalise_case(case):
@@ -648,6 +746,9 @@ def normalise_case(case):
     for e in case["envs"]:
         e["vars"] = sorted(e["vars"])
     case["output"] = sorted(case["output"], key=lambda o: o["name"])
+    case["comps"] = sorted(case.get("comps", []))
+    case.setdefault("nstages", 2)
+    case.setdefault("kind", "")
     return case
 
 
@@ -691,12 +792,18 @@ def run_cases(chk, env, cases_by_family, atoms):
     # keys + reporting
     okeys, base = option_keys(all_results.get("options", []), atoms)
     neutral = base.get(("local", False), frozenset())
+    nkeys = names_keys(all_results.get("names", []))
     reported = {}
     for fam in FAMILIES:
         for case, res in all_results.get(fam, []):
             if not failed(res):
                 continue
-            keys = okeys.get(id(case)) if fam == "options" else [other_key(case, res, neutral)]
+            if fam == "options":
+                keys = okeys.get(id(case))
+            elif fam == "names" and (not neutral or signature(res) - neutral):
+                keys = nkeys[id(case)]
+            else:
+                keys = [other_key(case, res, neutral)]
             for key in keys:
                 n = reported.get(key, 0)
                 reported[key] = n + 1
@@ -767,10 +874,11 @@ def observe_inexpressible(chk, env, atoms):
         if a["expr"]:
             continue
         case = {"fam": "options", "backend": "local", "layer": "component", "inject": False, "opts": [a["idx"]], "vars": [], "envs": [],
-                "apps": 0, "venvs": 0, "status": [], "output": [],
-                "expected": {"explicit": {"prod": [], "c": [{"path": CAT.BACKEND[0], "src": "backend", "a": "local", "n": 0},
-                                                             {"path": a["path"], "src": "atom", "a": a["path"], "n": a["idx"]}]},
-                             "isRepeat": {"prod": False, "c": False}, "vars": {"prod": [], "c": []}}}
+                "apps": 0, "venvs": 0, "status": [], "output": [], "comps": [], "nstages": 2, "kind": "",
+                "expected": {"comps": [{"name": "prod", "stage": 0}, {"name": "c", "stage": 1}],
+                             "explicit": [{"comp": "c", "path": CAT.BACKEND[0], "src": "backend", "a": "local", "n": 0},
+                                          {"comp": "c", "path": a["path"], "src": "atom", "a": a["path"], "n": a["idx"]}],
+                             "isRepeat": [], "vars": [], "envs": []}}
         res = execute_case(env, case, atoms, os.path.join(chk.scratch, "inexpr"), second_round=False)
         if res.get("machinery"):
             raise MachineryError(res["machinery"])
@@ -846,6 +954,14 @@ def check_configuration_class(chk, env, atoms, cases):
 
 def run(tier):
     chk = Check(PID, tier)
+    try:
+        return _run(chk, tier)
+    except BaseException:
+        shutil.rmtree(chk.scratch, ignore_errors=True)       # a machinery error must not leave scratch files behind
+        raise
+
+
+def _run(chk, tier):
     os.makedirs(GEN, exist_ok=True)
     atoms = {a["idx"]: a for a in CAT.generate_tla(os.path.join(GEN, "DosiniCatalogue.tla"))}
     env = Env()
@@ -866,7 +982,10 @@ def run(tier):
                        "sections, every pair of value classes inside a section, all layers x injection); variables: every subset of "
                        "{global, stage0, stage1, comp} x {v, V} + value classes; environments: {absent, empty, 1, 2 variables}^3 names x "
                        "application-dependencies 0..2 x virtual-environments 0..2 + value classes; status: 4 weight pairs x 5 forms^2; output: every "
-                       "well-formed entry + pairs of entries whose names differ by case. Every case is written and read twice by the real frontend.")
+                       "well-formed entry + pairs of entries whose names differ by case; names: every single name and every pair of names of the explicit alphabet "
+                       "of the catalogue (hyphen, dot, underscore, digits, mixed case, prefix pairs gcc/gcc-7 env/env-2, names containing the ENV prefix, "
+                       "':' '=' in section headers, keywords in another case) as environment, environment variable, component, variable (x scopes) and output "
+                       "name, and an instance with 11 stages (STAGE10, stage10.instance.conf). Every case is written and read twice by the real frontend.")
     chk.cov["exhaustive"] = True
     chk.assumptions += [
         "legitimate differences (tests/test_dosini.py:test_dump_instance): global variables migrate into the stage variables, the loaded instance has no "
@@ -875,6 +994,8 @@ def run(tier):
         "values are whitespace-stripped single- or continuation-line texts; leading/trailing blanks, indentation of continuation lines and "
         "empty collections (= absent) have no legacy representation and are not generated",
         "names reserved by the legacy format are not used for components / environments: %s; variables are not named like legacy keywords" % (CAT.RESERVED_SECTION_NAMES,),
+        "names come from the explicit alphabet of the catalogue; not generated because the INI syntax has no way to write them: names that start "
+        "with '#', ';' or '[' , ':' or '=' inside option names (variables, environment variables), two environment names that differ only by case",
         "status: arguments/references exist only next to an executable; output: absent description/type = null, stage identifiers stageN = N",
         "the instance is produced by FlowIRConcrete.instance() with the flags conf.py uses (inject_missing_fields=False) and the ones the project's test uses (True)",
     ]
